@@ -1249,24 +1249,39 @@ class Analysis:
         return out
 
     def solve_build_only(self):
-        """greatest fixpoint of: (h, formal) is *confined* iff at every call site the object bound to the formal is fresh,
-        the object under construction, or itself confined in the caller.  A method nobody calls is an entry point: its
-        receiver is a shared object."""
+        """(h, formal) is *confined* iff at every call site the object bound to the formal is fresh, the object under
+        construction, or itself confined in the caller (greatest fixpoint) - and at least one chain really starts at a
+        constructor / fresh object (least fixpoint: a cycle of by-name calls with no such start is an entry point).
+        Methods that implement the Model API are called by clients on the cached model: never confined."""
         self.build_reverse()
-        state = {}
-        for u in self.units:
-            for f in u.mut:
-                state[(id(u), f)] = True
         self.why = {}
-        changed = True
-        rounds = 0
-        while changed:
-            changed = False
-            rounds += 1
-            if rounds > 200:
-                raise AnalysisError('who-may-call predicate did not stabilise')
+        forced = {}
+        model = None
+        m = self.idx.mods.get('recognizers_text.model')
+        if m is not None:
+            model = m.classes.get('Model')
+        if model is not None:
+            api = set(model.methods)
             for u in self.units:
-                for f in u.mut:
+                if u.cls is not None and u.cls is not model and model in self.idx.mro(u.cls) and u.name in api \
+                        and SELF in u.mut and u.kind == 'plain':
+                    forced[(id(u), SELF)] = 'implements Model.%s: clients call it on the model held in the process-wide ' \
+                                            'cache' % u.name
+        keys = [(u, f) for u in self.units for f in u.mut]
+        for _outer in range(50):
+            state = {}
+            for u, f in keys:
+                state[(id(u), f)] = (id(u), f) not in forced
+            for k_, w in forced.items():
+                self.why[k_] = w
+            changed = True
+            rounds = 0
+            while changed:
+                changed = False
+                rounds += 1
+                if rounds > 300:
+                    raise AnalysisError('who-may-call predicate did not stabilise')
+                for u, f in keys:
                     key = (id(u), f)
                     if not state[key]:
                         continue
@@ -1274,12 +1289,9 @@ class Analysis:
                         continue
                     sites = self.rev.get(id(u), [])
                     bad = None
-                    if not sites:
-                        if f == SELF:
-                            bad = 'no call site in the analysed packages: an entry point invoked on a shared object'
+                    if not sites and f == SELF:
+                        bad = 'no call site in the analysed packages: an entry point invoked on a shared object'
                     for (k, c, how, shift, recv) in sites:
-                        if bad:
-                            break
                         roots = self.actual_roots(k, c, how, shift, recv, u, f)
                         if roots is None:
                             continue
@@ -1291,17 +1303,52 @@ class Analysis:
                                 if k.kind in ('ctor', 'setter', 'protocol'):
                                     continue
                                 if not state.get((id(k), SELF), False):
-                                    bad = '%s (%s:%d) on its own receiver; %s' % (
+                                    bad = 'called from %s (%s:%d) on its own state; %s' % (
                                         k.qual, k.mod.rel, c.lineno, self.why.get((id(k), SELF), 'not build-time only'))
                             elif not state.get((id(k), t), True):
-                                bad = '%s (%s:%d) through its parameter %s; %s' % (
+                                bad = 'called from %s (%s:%d) with its parameter %s; %s' % (
                                     k.qual, k.mod.rel, c.lineno, t[2:], self.why.get((id(k), t), ''))
                             if bad:
                                 break
+                        if bad:
+                            break
                     if bad:
                         state[key] = False
                         self.why[key] = bad[:400]
                         changed = True
+            # groundedness of the receiver chains
+            grounded = set()
+            changed = True
+            while changed:
+                changed = False
+                for u, f in keys:
+                    key = (id(u), f)
+                    if key in grounded or not state[key]:
+                        continue
+                    if f == SELF and u.kind in ('ctor', 'setter', 'protocol'):
+                        grounded.add(key)
+                        changed = True
+                        continue
+                    for (k, c, how, shift, recv) in self.rev.get(id(u), []):
+                        roots = self.actual_roots(k, c, how, shift, recv, u, f)
+                        if roots is None or (not roots and k is not u):
+                            grounded.add(key)       # a fresh / per-call object
+                            break
+                        if any((t == SELF and k.kind == 'ctor') or ((id(k), t) in grounded and k is not u)
+                               for t in roots if not t.startswith('g:')):
+                            grounded.add(key)
+                            break
+                    if key in grounded:
+                        changed = True
+            newly = [(u, f) for u, f in keys if f == SELF and u.kind == 'plain' and state[(id(u), f)]
+                     and (id(u), f) not in grounded]
+            if not newly:
+                break
+            for u, f in newly:
+                forced[(id(u), f)] = 'no call chain from a constructor or a freshly built object reaches it: an entry ' \
+                                     'point invoked on a shared object'
+        else:
+            raise AnalysisError('who-may-call predicate did not stabilise (grounding)')
         self.confined = state
 
     def terminals(self, u, formal=SELF, limit=6):
@@ -2199,77 +2246,115 @@ def rule_decimal(chk, A):
             chk.bad(R_DEC, m.path, u.qual if u else fn.name, 'thread context write %s' % hit,
                     '`%s` rewrites the calling thread\'s decimal context from inside %s: the setting leaks into later calls on '
                     'this thread only' % (hit, fn.name), n.lineno)
-    # coverage: explicit context in the function, or in every caller
+    # coverage: explicit context in the function, or in every caller (greatest fixpoint), and some chain really starts
+    # under an explicit context (least fixpoint: by-name cycles with no covered start are entry points)
     need = [u for u in A.units if id(u) in sites]
     deco = {}
     inside = {}
-    covered = {}
 
     def info(u):
         if id(u) not in deco:
             deco[id(u)] = context_decorator(A, u)
             inside[id(u)] = explicit_context_nodes(u) if 'localcontext' in u.mod.src else set()
         return deco[id(u)], inside[id(u)]
-    state = {}
-    why = {}
-
-    def get(u):
-        if id(u) not in state:
-            state[id(u)] = True
-            order.append(u)
-        return state[id(u)]
-    order = []
-    for u in need:
-        get(u)
-    changed = True
-    rounds = 0
-    while changed:
-        changed = False
-        rounds += 1
-        if rounds > 200:
-            raise AnalysisError('context coverage predicate did not stabilise')
-        for u in list(order):
-            if not state[id(u)]:
-                continue
-            d, _ = info(u)
-            if d:
-                continue
-            cs = A.rev.get(id(u), [])
-            bad = None
-            if not [s for s in cs if s[2] != 'escapes'] and not cs:
-                bad = 'no caller in the analysed packages (an entry point)'
-            for (k, c, how, shift, recv) in cs:
-                if how == 'escapes':
-                    bad = 'referenced as a value in %s' % (k.qual if k else 'module code')
-                    break
+    region = {}
+    todo = list(need)
+    while todo:
+        u = todo.pop()
+        if id(u) in region:
+            continue
+        region[id(u)] = u
+        if info(u)[0]:
+            continue
+        for (k, c, how, shift, recv) in A.rev.get(id(u), []):
+            if k is not None and id(k) not in region and how != 'escapes':
                 dk_, ins = info(k)
-                if dk_ or id(c) in ins:
+                if not (dk_ or id(c) in ins):
+                    todo.append(k)
+    why = {}
+    forced = set()
+    for _outer in range(50):
+        state = {i: i not in forced for i in region}
+        changed = True
+        while changed:
+            changed = False
+            for i, u in region.items():
+                if not state[i] or info(u)[0]:
                     continue
-                if k is u:
+                cs = A.rev.get(i, [])
+                bad = None
+                if not cs:
+                    bad = 'it has no caller in the analysed packages (an entry point)'
+                for (k, c, how, shift, recv) in cs:
+                    if how == 'escapes':
+                        bad = 'it is referenced as a value in %s' % (k.qual if k else 'module code')
+                        break
+                    dk_, ins = info(k)
+                    if dk_ or id(c) in ins or k is u:
+                        continue
+                    if not state.get(id(k), False):
+                        bad = 'it is called from %s (%s:%d) without one' % (k.qual, k.mod.rel, c.lineno)
+                        break
+                if bad:
+                    state[i] = False
+                    why[i] = bad[:300]
+                    changed = True
+        grounded = set()
+        changed = True
+        while changed:
+            changed = False
+            for i, u in region.items():
+                if i in grounded or not state[i]:
                     continue
-                if not get(k):
-                    bad = 'called from %s (%s:%d), %s' % (k.qual, k.mod.rel, c.lineno, why.get(id(k), 'which is not covered'))
-                    break
-            if bad:
-                state[id(u)] = False
-                why[id(u)] = bad[:300]
-                changed = True
+                if info(u)[0]:
+                    grounded.add(i)
+                    changed = True
+                    continue
+                for (k, c, how, shift, recv) in A.rev.get(i, []):
+                    if k is None or k is u:
+                        continue
+                    dk_, ins = info(k)
+                    if dk_ or id(c) in ins or id(k) in grounded:
+                        grounded.add(i)
+                        changed = True
+                        break
+        newly = [i for i in region if state[i] and i not in grounded]
+        if not newly:
+            break
+        for i in newly:
+            forced.add(i)
+            why[i] = 'no call chain starts under an explicit context'
+    else:
+        raise AnalysisError('context coverage predicate did not stabilise')
     n_sites = 0
     for u in need:
         d, ins = info(u)
+        uncovered = []
         for n, detail in sites[id(u)]:
             n_sites += 1
             if d:
                 chk.ok(R_DEC, u.path, u.qual, '%s under %s' % (detail, d), n.lineno)
             elif id(n) in ins:
                 chk.ok(R_DEC, u.path, u.qual, '%s under with localcontext()' % detail, n.lineno)
-            elif state[id(u)]:
+            elif state.get(id(u), False):
                 chk.ok(R_DEC, u.path, u.qual, '%s - every caller runs under an explicit context' % detail, n.lineno)
             else:
-                chk.bad(R_DEC, u.path, u.qual, detail,
-                        '%s in %s runs under whatever decimal context the calling thread has (no @precision / `with '
-                        'localcontext()` here, and %s): the digits of the result depend on the thread'
-                        % (detail, u.qual, why.get(id(u), 'a caller is uncovered')), n.lineno)
+                uncovered.append((n, detail))
+        if uncovered:
+            # one report per function: the outermost operations, in normal form
+            inner = set()
+            for n, detail in uncovered:
+                for x in ast.walk(n):
+                    if x is not n:
+                        inner.add(id(x))
+            outer = [(n, detail) for n, detail in uncovered if id(n) not in inner]
+            forms = sorted({detail for n, detail in outer})
+            lines = sorted({n.lineno for n, detail in outer})
+            chk.bad(R_DEC, u.path, u.qual, '; '.join(forms),
+                    '%d Decimal operation(s) in %s (lines %s) run under whatever decimal context the calling thread has - no '
+                    '@precision / `with localcontext()` here, and %s: the digits of the result depend on the thread (the '
+                    'importing thread was configured at import, any other thread has the default precision 28)'
+                    % (len(outer), u.qual, ', '.join(map(str, lines)), why.get(id(u), 'a caller is uncovered')), lines[0])
     return n_sites
 
 
@@ -2505,6 +2590,7 @@ class Recognizer:
 import random
 from datetime import datetime
 from decimal import Decimal, getcontext
+from recognizers_text.model import Model
 getcontext().prec = 9
 COUNTER = 0
 class Table:
@@ -2530,7 +2616,7 @@ class CtlParser:
         self.seen.append(er)
         tie = random.choice([1, 2])
         return Decimal(1) / Decimal(3)
-class CtlModel:
+class CtlModel(Model):
     def __init__(self):
         self.parser = CtlParser()
         self.template = Er()
